@@ -115,6 +115,71 @@ func runHivePeers(e *env, c *Case) Obs {
 	return o
 }
 
+// hive2.seq: message 1 = a Peers reply (client read) whose overlays, of any length, are filed into the known peers;
+// message 2 = a FindNodeReq from the same peer, served by comparing its target with those stored overlays.
+type hvSeq struct {
+	Peers []hvPeer `json:"peers"`
+	Req   fnMsg    `json:"req"`
+}
+
+func runHiveSeq(e *env, c *Case) Obs {
+	var m hvSeq
+	_ = json.Unmarshal(c.Msg, &m)
+	n := newNet(e)
+	pp := &hpb.Peers{}
+	for _, p := range m.Peers {
+		pp.Peers = append(pp.Peers, &hpb.AuroraAddress{Underlay: unhex(p.U), Signature: unhex(p.S), Overlay: unhex(p.O)})
+	}
+	b, _ := proto.Marshal(pp)
+	rec := streamtest.New(streamtest.WithProtocols(evilPeer("hive2", "1.0.0", "findNode", [][]byte{frame(b)})))
+	svc := hive2.New(rec, n.ab, networkID, e.logger)
+	svc.SetConfig(hive2.Config{Kad: n.kad, Base: e.node.overlay, AllowPrivateCIDRs: true})
+	svc.SetAddPeersHandler(func(a ...boson.Address) { n.kad.AddPeers(a...) })
+	defer svc.Close()
+	added := 0
+	r := guardClient(40*time.Second, func() error {
+		ch, err := svc.DoFindNode(context.Background(), e.node.overlay, e.peer.overlay, []int32{0, 1}, 4)
+		if err != nil {
+			return err
+		}
+		for range ch {
+			added++
+		}
+		return nil
+	})
+	if r.panicked || r.hang {
+		return Obs{Panic: r.panicked, PMsg: r.pmsg, Hang: r.hang, Where: "client(pre)"}
+	}
+	rb, _ := proto.Marshal(&hpb.FindNodeReq{Target: unhex(m.Req.Target), Pos: m.Req.Pos, Limit: m.Req.Limit})
+	res := driveInbound(svc.Protocol(), "findNode", e.peer.overlay, false, [][]byte{frame(rb)}, 20*time.Second)
+	o := Obs{Panic: res.panicked, PMsg: res.pmsg, Hang: res.hang, Where: "handler", Err: errBit(res.err), Aux: map[string]int{"peers": -1, "added": added}}
+	if l, k := uvarint(res.reply); k > 0 && int(l) <= len(res.reply)-k {
+		var p hpb.Peers
+		if proto.Unmarshal(res.reply[k:k+int(l)], &p) == nil {
+			o.Aux["peers"] = len(p.Peers)
+		}
+	}
+	return o
+}
+
+func coqHiveSeq(c *Case, o *Obs) (string, bool) {
+	var m hvSeq
+	_ = json.Unmarshal(c.Msg, &m)
+	n, p := idents()
+	var added []string
+	for _, q := range m.Peers {
+		if _, err := ma.NewMultiaddrBytes(unhex(q.U)); err == nil {
+			added = append(added, q.O)
+		}
+	}
+	pos := make([]int64, len(m.Req.Pos))
+	for i, x := range m.Req.Pos {
+		pos[i] = int64(x)
+	}
+	return hx.CoqApp("CHiveSeq", coqHB(n.overlay.Bytes()), coqHB(p.overlay.Bytes()), coqBytesList(added),
+		hx.CoqApp("mkFindNode", coqHB(unhex(m.Req.Target)), hx.CoqZList(pos), hx.CoqZ(int64(m.Req.Limit))), coqOutcome(o), hx.CoqZ(int64(o.Aux["peers"]))), true
+}
+
 func coqHiveFindNode(c *Case, o *Obs) (string, bool) {
 	var m fnMsg
 	_ = json.Unmarshal(c.Msg, &m)
@@ -206,6 +271,22 @@ func genHive2(run *hx.Run, add func(*Case)) {
 		}
 		mkp("", ps)
 	}
+	// ---- SEQUENCE: overlays of mixed length (0, 1, 31, 32, 33 bytes; short ones prefixes of the long one) stored by a
+	// Peers reply, then find-node requests whose targets (also of mixed length) are compared with them
+	long := append(append([]byte{}, base[:2]...), r.Bytes(31)...)
+	ovs := []string{hx.Hex(long[:32]), hx.Hex(long[:1]), hx.Hex(long[:31]), hx.Hex(long), ""}
+	var mixedPeers []hvPeer
+	for _, o := range ovs {
+		mixedPeers = append(mixedPeers, hvPeer{U: good.U, S: good.S, O: o})
+	}
+	allPos := []int32{0, 1, 2, 3, 4, 5, 6, 7, 8, 9, 10, 11, 12, 13, 14, 15, 16, 17, 18, 19, 20, 21, 22, 23, 24, 25, 26, 27, 28, 29, 30, 31}
+	for i, tg := range []string{hx.Hex(long[:32]), hx.Hex(long[:1]), "", hx.Hex(long[:31]), hx.Hex(long), hx.Hex(base)} {
+		if !run.Thorough() && i > 2 && r.Intn(2) != 0 {
+			continue
+		}
+		b, _ := json.Marshal(&hvSeq{Peers: mixedPeers, Req: fnMsg{Target: tg, Pos: allPos, Limit: 30}})
+		add(&Case{H: "hive2.seq", Kind: "msg", Msg: b, Class: "mixed-length-overlays-then-find-node"})
+	}
 	pv, _ := proto.Marshal(&hpb.Peers{Peers: []*hpb.AuroraAddress{{Underlay: e.peer.maBytes, Overlay: e.peer.overlay.Bytes()}}})
 	for _, chunks := range rawStreams(r, pv, run.N(12, 300)) {
 		add(&Case{H: "hive2.peers", Kind: "raw", Raw: hexes(chunks...), Class: "raw-bytes"})
@@ -215,5 +296,6 @@ func genHive2(run *hx.Run, add func(*Case)) {
 func init() {
 	register(&handlerDef{id: "hive2.findnode", run: runHiveFindNode, coq: coqHiveFindNode})
 	register(&handlerDef{id: "hive2.peers", run: runHivePeers, coq: coqHivePeers})
+	register(&handlerDef{id: "hive2.seq", run: runHiveSeq, coq: coqHiveSeq})
 	generators = append(generators, genHive2)
 }
